@@ -26,6 +26,7 @@ func c11Legs(tier, o string) []pairLeg {
 		add("E3", EditStates(3, 3000))
 		add("hostile", HostileDocs())
 		add("deep", Deep(true))
+		add("large", Large())
 	} else {
 		add("U4", U(4))
 		add("U3perm", UPerm(3))
@@ -33,6 +34,7 @@ func c11Legs(tier, o string) []pairLeg {
 		add("E2", EditStates(2, 500))
 		add("hostile", thin(HostileDocs(), 150))
 		add("deep", Deep(true))
+		add("large", Large())
 	}
 	return legs
 }
